@@ -66,6 +66,19 @@ def main():
             entry = {"property": prop, "repo_head": head, "tier": args.tier}
             if ap_.returncode != 0:
                 entry["error"] = "patch does not apply: " + ap_.stderr[:300]
+                if meta.get("control"):
+                    # a refactoring written against an earlier /repo HEAD (meta.repo_head) that overlaps a later fix:
+                    # kept with its recorded results, not re-run
+                    entry["stale"] = True
+                    entry["written_for"] = meta.get("repo_head")
+                    old = results.get(sid) or {}
+                    if old.get("checks"):
+                        entry["last_results"] = {"repo_head": old.get("repo_head"), "checks": old.get("checks")}
+                    elif old.get("last_results"):
+                        entry["last_results"] = old["last_results"]
+                    results[sid] = entry
+                    print(sid, "STALE (written for %s, overlaps a later fix)" % meta.get("repo_head"))
+                    continue
                 results[sid] = entry
                 print(sid, "PATCH DOES NOT APPLY")
                 failed += 1
